@@ -135,6 +135,7 @@ async fn start_streaming<
     senders: &Senders,
     stream_events: StreamEvents,
     extra_message: Option<ToClientMessage>,
+    flush_journal_before_extra_message: bool,
 ) where
     Tx::Error: Debug,
 {
@@ -159,6 +160,10 @@ async fn start_streaming<
         None
     };
 
+    // The listener is registered at this point, so no event can be missed while we wait
+    if flush_journal_before_extra_message {
+        senders.events.flush_journal().await;
+    }
     if let Some(msg) = extra_message {
         let _ = tx.send(msg).await;
     }
@@ -208,9 +213,6 @@ pub async fn client_rpc_loop<
                 let response = match message {
                     FromClientMessage::Submit(msg, stream_opts) => {
                         let response = submit::handle_submit(&state_ref, senders, msg);
-                        if !response.is_error() {
-                            senders.events.flush_journal().await;
-                        };
                         if let Some(mut stream_opts) = stream_opts
                             && let ToClientMessage::SubmitResponse(SubmitResponse::Ok {
                                 job, ..
@@ -221,6 +223,9 @@ pub async fn client_rpc_loop<
                                 s.insert(job.info.id);
                                 stream_opts.filter.set_jobs(s);
                             }
+                            // The event listener has to be registered before the journal
+                            // flush is awaited; otherwise events of the job that arrive in
+                            // the meantime (even its completion) are never sent to the client
                             start_streaming(
                                 tx,
                                 rx,
@@ -228,10 +233,14 @@ pub async fn client_rpc_loop<
                                 senders,
                                 stream_opts,
                                 Some(response),
+                                true,
                             )
                             .await;
                             break;
                         }
+                        if !response.is_error() {
+                            senders.events.flush_journal().await;
+                        };
                         response
                     }
                     FromClientMessage::JobInfo(msg, stream_opts) => {
@@ -253,6 +262,7 @@ pub async fn client_rpc_loop<
                                 senders,
                                 stream_opts,
                                 Some(response),
+                                false,
                             )
                             .await;
                             break;
@@ -314,7 +324,7 @@ pub async fn client_rpc_loop<
                         response
                     }
                     FromClientMessage::StreamEvents(msg) => {
-                        start_streaming(tx, rx, state_ref, senders, msg, None).await;
+                        start_streaming(tx, rx, state_ref, senders, msg, None, false).await;
                         break;
                     }
                     FromClientMessage::ServerInfo => {
